@@ -101,7 +101,7 @@ def make_graders(rng, extra):
     """Return list of (description, builder(extra_cfg) -> grader, inputs)."""
     from mitxgraders import StringGrader, SingleListGrader, ListGrader
     answers = (
-        {'expect': 'full', 'grade_decimal': 1, 'msg': 'well done'},
+        {'expect': 'full', 'grade_decimal': 1, 'msg': 'well {done} 100%'},
         {'expect': 'half', 'grade_decimal': 0.5},
         {'expect': 'third', 'grade_decimal': 1 / 3., 'msg': 'a\nb'},
         {'expect': 'tiny', 'grade_decimal': 0.1},
@@ -110,7 +110,7 @@ def make_graders(rng, extra):
         {'expect': 'pinnedf', 'ok': False},          # full credit labelled ok=False: the GRADE is what gets scaled
     )
     out = []
-    wrong_msg = rng.choice(['', 'nope'])
+    wrong_msg = rng.choice(['', 'nope', 'no {pe} 100%'])
     ordered = rng.choice([True, False])
     out.append(('String', lambda cfg: StringGrader(answers=answers, wrong_msg=wrong_msg, **cfg),
                 ['full', 'half', 'third', 'tiny', 'zero', 'wrong', '', 'pinned', 'pinnedf']))
